@@ -160,7 +160,10 @@ class Outcome:
 
 def run_proc(binary, test, outdir, env, args, timeout):
     os.makedirs(outdir, exist_ok=True)
-    cmd = [binary, '-test.run', '^%s$' % test, '-test.timeout', '%ds' % timeout, '-test.count=1'] + args
+    # VERIF_NO_GO_TIMEOUT: no timer inside the test binary, so that the Go runtime itself reports a self-deadlock of purely
+    # sequential code ("all goroutines are asleep") - a verdict, unlike a timeout; the driver's own timeout still applies
+    gt = '0' if env.get('VERIF_NO_GO_TIMEOUT') else '%ds' % timeout
+    cmd = [binary, '-test.run', '^%s$' % test, '-test.timeout', gt, '-test.count=1'] + args
     e = goenv(env)
     e['VERIF_OUT'] = outdir
     try:
